@@ -328,8 +328,8 @@ func (g *generic) runScenario(sc scenario) {
 	if x.nontrivial {
 		r.Distinct("generic:" + sc.desc())
 	}
-	if r.WantSample("generic-" + sc.Phase + "-" + sc.mode()) {
-		r.Sample("generic-"+sc.Phase+"-"+sc.mode(), map[string]any{
+	if len(x.all) >= 3 && len(sc.Ops) >= 3 && sc.Pred != 0 && sc.Pred != 63 && r.WantSample("generic-"+sc.mode()) {
+		r.Sample("generic-"+sc.mode(), map[string]any{
 			"predicate": predString(sc.Pred), "ops": opsString(sc.Ops), "subscribe_before_op": sc.SubAt, "backpressure": sc.BP,
 			"drain_bits": sc.Drain, "read_mask": maskPaths[sc.Mask], "events_received": x.rendered(), "final_filtered_list": vk.ListJSON(x.col.List(x.readOpts...)),
 		})
@@ -513,24 +513,33 @@ func listMap(l []proto.Message) map[string]proto.Message {
 	return m
 }
 
-// diffClass classifies how got differs from want: an id missing from got, an extra id in got, a held id with another value.
+// diffClass classifies how got differs from want, by a fixed priority so that the class does not depend on map
+// order: an id missing from got, an extra id in got (with a nil value / with a value), a held id with another value.
 func diffClass(got, want map[string]proto.Message) string {
 	for id := range want {
 		if _, ok := got[id]; !ok {
 			return "missing"
 		}
 	}
+	extra, extraNil, stale := false, false, false
 	for id, g := range got {
 		w, ok := want[id]
-		if !ok {
-			if g == nil {
-				return "extra-nil-value"
-			}
-			return "extra"
+		switch {
+		case !ok && g == nil:
+			extraNil = true
+		case !ok:
+			extra = true
+		case !vk.SameMessage(g, w):
+			stale = true
 		}
-		if !vk.SameMessage(g, w) {
-			return "stale"
-		}
+	}
+	switch {
+	case extraNil:
+		return "extra-nil-value"
+	case extra:
+		return "extra"
+	case stale:
+		return "stale"
 	}
 	return "order"
 }
@@ -773,6 +782,13 @@ func (g *generic) historyPhase() {
 		for h := 0; h < 10000; h++ {
 			if g.r.CaseRand("len4-pick", h).Chance(3, 100) {
 				runHistory(history(h, 4), "len4-sample")
+			}
+		}
+	}
+	if !g.r.Quick() {
+		for h := 0; h < 100000; h++ {
+			if g.r.CaseRand("len5-pick", h).Chance(5, 100) {
+				runHistory(history(h, 5), "len5-sample")
 			}
 		}
 	}
